@@ -32,7 +32,7 @@ REQUIRED = ["keysounded_head_joined", "dropped_orphans", "note_inside_hold", "co
             "tail_same_beat_between_row_notes", "by_type_two_heads_one_orphan", "note_inside_hold_in_a_multi_note_row",
             "joined_hold_nested_in_a_joined_hold_on_its_column", "run_aborted_by_an_exception_before_a_judged_run",
             "generator_abandoned_before_a_judged_run", "distinct_beats_that_are_the_same_float",
-            "lazy_stream_of_fresh_objects_and_tuple_rows"]
+            "lazy_stream_of_fresh_objects_and_tuple_rows", "empty_set_of_included_types"]
 
 
 def anchors():
@@ -77,6 +77,8 @@ def cases(ctx):
         sub = None
         if rng.random() < 0.3:
             sub = "".join(sorted(rng.sample(list(G.NOTE_CHARS), rng.randint(2, 8))))
+            if rng.random() < 0.15:
+                sub = rng.choice(["", "24", "3", "2", "13"])   # nothing at all; heads without tails; tails without heads
         yield {"kind": "random", "notes": notes, "include": sub}
 
 
@@ -154,7 +156,9 @@ def roundtrip(ctx, notes, include, case):
 
     model = c09.to_model(notes)
     real = c09.to_real(notes)
-    inc_model = frozenset(include) if include else frozenset(G.NOTE_CHARS)
+    inc_model = frozenset(include) if include is not None else frozenset(G.NOTE_CHARS)
+    if include is not None and not include:
+        ctx.feat("empty_set_of_included_types")
     inc_real = frozenset(NoteType(t) for t in inc_model)
     SB = {R.SEPARATE: SameBeatNotes.KEEP_SEPARATE, R.BY_TYPE: SameBeatNotes.JOIN_BY_NOTE_TYPE, R.ALL: SameBeatNotes.JOIN_ALL}
     OP = {R.RAISE: OrphanedNotes.RAISE_EXCEPTION, R.KEEP: OrphanedNotes.KEEP_ORPHAN, R.DROP: OrphanedNotes.DROP_ORPHAN}
